@@ -85,7 +85,11 @@ def read_replay(path):
                                       "alive": d["alive"], "after": d["after"], "created": d["created"],
                                       "calls": d.get("calls", []),
                                       "w1": [v != 0 for v in d["w1"]]}})
-    return list(groups.values())
+    # TLC's workers print the lines in a varying order: canonical order, so that the generated zoo is a
+    # function of VERIF_SEED and of the emitted SET only
+    for g in groups.values():
+        g["runs"].sort(key=lambda r: json.dumps([r["present"], r["held"]]))
+    return [groups[k] for k in sorted(groups)]
 
 
 # ------------------------------------------------------------------ shapes composed here (impl -> spec only)
@@ -276,6 +280,7 @@ class Spelling:
         self.rng, self.cid, self.tb = rng, case_id, tb
         self.bare_nodes = set(bare_nodes)
         self.nbare = 0
+        self.lt_structs = 0      # derived structs of this type spelled with the extra lifetime 'x
         self.twin = twin
         self.defs = []
         self.nstruct = 0
@@ -349,7 +354,7 @@ class Spelling:
         without any field that can mention 'a has no valid spelling and is turned into a tuple
         (the shape table is changed accordingly: `normalised`)."""
         rng = self.rng
-        st0 = (rng.getstate(), self.nstruct, len(self.defs))
+        st0 = (rng.getstate(), self.nstruct, len(self.defs), self.lt_structs)
         name = "Z%d_%d" % (self.cid, self.nstruct)
         self.nstruct += 1
         flavour = "plain" if force_plain else rng.choice(["plain", "plain", "tparam", "tparam_where", "lifetime", "both",
@@ -395,7 +400,15 @@ class Spelling:
                 else:
                     bounds_inline.append("%s: %s" % (p, b))
                 fields.append(self.leaf(y, p))
+            elif i == lt_field and self.lt_structs > 0:
+                # At most ONE struct of a type carries the extra lifetime: the derive's where-clause
+                # `PhantomData<&'x i64>: SystemData<'a>` of one such struct clashes (E0803 / E0283) with the
+                # same obligation at another lifetime that a second such struct brings in wherever it is
+                # nested or passed as a type argument.  (Same draws from the generator as the other branch.)
+                rng.choice(["'static", "'a"])
+                fields.append("PhantomData<u8>")
             elif i == lt_field:
+                self.lt_structs += 1
                 lts.append("'x")
                 ltargs.append(rng.choice(["'static", "'a"]))
                 fields.append("PhantomData<&'x i64>")   # pointee unlike every 'a-phantom: no clash of where-clauses
@@ -413,6 +426,7 @@ class Spelling:
             rng.setstate(st0[0])
             self.nstruct = st0[1]
             del self.defs[st0[2]:]
+            self.lt_structs = st0[3]
             if phantoms and not force_plain and not twin:
                 r = self.derived_with_a(x, phantoms[0])
                 if r:
